@@ -226,6 +226,24 @@ func (this *DefaultInputBitStream) readFromInputStream(count int) (int, error) {
 
 	this.read += (int64(this.position << 3))
 	size, err := this.is.Read(this.buffer[0:count])
+
+	// Short read (pipe, socket, ...): complete the last 64-bit word so that
+	// a partial word is only ever seen at the end of the stream.
+	for size > 0 && size&7 != 0 && size < count && err == nil {
+		var n int
+		n, err = this.is.Read(this.buffer[size:count])
+
+		if n <= 0 {
+			if err == nil {
+				err = io.ErrNoProgress
+			}
+
+			break
+		}
+
+		size += n
+	}
+
 	this.position = 0
 
 	if size <= 0 {
